@@ -571,8 +571,19 @@ func specMapped(m *mappedFile) bool {
 //@   at call invalidateCounters#1: after ghost $invalidated = true
 //@   at call close#1: assert $invalidated
 
+// rotate1: with mode off nothing is created (the mode is consulted before the local
+// directory, the week-end file or a counter file is touched); the metadata records
+// the begin and the end of the span computed by counterSpan, as RFC 3339 instants,
+// the file is named after the date of the begin, and the file opened is that name in
+// the local directory with that metadata.
 //@ contract (*file).rotate1
 //@   requires $rd == 0 && $lk == 0
+//@   at call counterSpan#1: assert $mode != "off"
+//@   at call MkdirAll#1: assert $mode != "off"
+//@   at call openMapped#1: assert $mode != "off" && arg0 == filepath.Join(dir, baseName) && arg1 == meta
+//@   at call Format#1: assert same(arg0, f.timeBegin) && same(arg0, begin) && arg1 == time.RFC3339
+//@   at call Format#2: assert same(arg0, f.timeEnd) && same(arg0, end) && arg1 == time.RFC3339
+//@   at call Format#3: assert same(arg0, f.timeBegin) && arg1 == "2006-01-02"
 //@   modifies heap, $fsops, $minsize, $now, $weekend, $ledger, $lost, $refreshed, $touched, $invalidated
 
 //@ contract (*file).rotate
